@@ -649,6 +649,15 @@ func runScenarioOn(sc *Scenario, shared *sharedTranscoder) *Outcome {
 }
 
 func runScenarioOpts(sc *Scenario, shared *sharedTranscoder, noFlusher bool) *Outcome {
+	return runScenarioFull(sc, shared, noFlusher, nil)
+}
+
+// runScenarioCtx: like runScenarioOn, with extra values put into the request context.
+func runScenarioCtx(sc *Scenario, shared *sharedTranscoder, withCtx func(context.Context) context.Context) *Outcome {
+	return runScenarioFull(sc, shared, false, withCtx)
+}
+
+func runScenarioFull(sc *Scenario, shared *sharedTranscoder, noFlusher bool, withCtx func(context.Context) context.Context) *Outcome {
 	out := &Outcome{}
 	br := &benchRun{sc: sc, out: out}
 	var done int32
@@ -678,6 +687,9 @@ func runScenarioOpts(sc *Scenario, shared *sharedTranscoder, noFlusher bool) *Ou
 	if shared != nil {
 		handler = shared.tr
 		ctx := context.WithValue(req.Context(), slotKey{}, br)
+		if withCtx != nil {
+			ctx = withCtx(ctx)
+		}
 		req = req.WithContext(ctx)
 	} else {
 		tr, err := buildTranscoder(sc.Config, br.serviceHandler(), br.unknownHandler())
